@@ -17,6 +17,7 @@ package main
 // its table id and key, the exported rows, and the id of a direct ingest of the same file.
 
 import (
+	"encoding/csv"
 	"encoding/json"
 	"fmt"
 	"math/rand"
@@ -91,6 +92,35 @@ func strsEqual(a, b []string) bool {
 		}
 	}
 	return true
+}
+
+// pkNamesPlain: every name is made of letters, digits and '_' only (what the comma-separated forms of
+// `-p` and `config set` carry as they are).
+func pkNamesPlain(pk []string) bool {
+	for _, n := range pk {
+		if n == "" {
+			return false
+		}
+		for _, c := range n {
+			if !(c == '_' || c >= '0' && c <= '9' || c >= 'a' && c <= 'z' || c >= 'A' && c <= 'Z') {
+				return false
+			}
+		}
+	}
+	return true
+}
+
+// pkFlagValue: the value of -p for a list of column names. The flag is a comma-separated list read as
+// one CSV record, so a name holding a comma or a quote is written as a quoted CSV field.
+func pkFlagValue(pk []string) string {
+	if pkNamesPlain(pk) {
+		return strings.Join(pk, ",")
+	}
+	buf := &strings.Builder{}
+	w := csv.NewWriter(buf)
+	w.Write(pk)
+	w.Flush()
+	return strings.TrimSuffix(buf.String(), "\n")
 }
 
 // histDerive fills in.Tables; false when the history is not well formed (a shrunk input).
@@ -238,7 +268,7 @@ func runCommitHistory(in *histInput, withExport, withRef bool) Res {
 			if i == 0 {
 				args := []string{"commit", "main", arg, "step 0", "-n", "1", "--set-file", "--set-primary-key"}
 				if len(st.PK) > 0 {
-					args = append(args, "-p", strings.Join(st.PK, ","))
+					args = append(args, "-p", pkFlagValue(st.PK))
 				}
 				out, err = cli(dir, args...)
 				if err != nil {
@@ -263,18 +293,29 @@ func runCommitHistory(in *histInput, withExport, withRef bool) Res {
 					// `wrgl commit main FILE MSG [-p PK] --set-file --set-primary-key`
 					args = []string{"commit", "main", arg, fmt.Sprintf("step %d", i), "-n", nw, "--set-file", "--set-primary-key"}
 					if len(st.PK) > 0 {
-						args = append(args, "-p", strings.Join(st.PK, ","))
+						args = append(args, "-p", pkFlagValue(st.PK))
 					}
 					cfgPK, cfgFile = st.PK, cfgName(st.File)
 				} else if st.Via == "flag" && len(st.PK) > 0 && !st.All {
-					args = append(args, "-p", strings.Join(st.PK, ","))
+					args = append(args, "-p", pkFlagValue(st.PK))
 				} else if !strsEqual(cfgPK, st.PK) {
 					var out string
 					var err error
 					if len(st.PK) == 0 {
 						out, err = cli(dir, "config", "unset", "branch.main.primaryKey", "--all")
-					} else {
+					} else if pkNamesPlain(st.PK) {
 						out, err = cli(dir, "config", "set", "branch.main.primaryKey", strings.Join(st.PK, ","))
+					} else {
+						// names that hold a comma (or a quote, a space, ...) cannot go through the comma-separated
+						// form of `config set`: the multi-valued field is emptied and the names are added one by one
+						if len(cfgPK) > 0 {
+							out, err = cli(dir, "config", "unset", "branch.main.primaryKey", "--all")
+						}
+						for _, name := range st.PK {
+							if err == nil {
+								out, err = cli(dir, "config", "add", "branch.main.primaryKey", name)
+							}
+						}
 					}
 					if err != nil {
 						return fail(i, "set-pk", out, err)
@@ -346,10 +387,14 @@ func runCommitHistory(in *histInput, withExport, withRef bool) Res {
 // genHistTable: nKey "key" columns each of which holds pairwise distinct values (so every
 // non-empty selection of them, in any order, is a key with unique values, and so is "no key"),
 // in unrelated orders; the other columns hold arbitrary cells.
-func genHistTable(r *rand.Rand, nCols, nKey, n int) *TableSpec {
+func genHistTable(r *rand.Rand, nCols, nKey, n int, names []string) *TableSpec {
 	t := &TableSpec{}
 	for i := 0; i < nCols; i++ {
-		t.Columns = append(t.Columns, string(rune('a'+i)))
+		if names != nil {
+			t.Columns = append(t.Columns, names[i])
+		} else {
+			t.Columns = append(t.Columns, string(rune('a'+i)))
+		}
 	}
 	perms := make([][]int, nKey)
 	for k := range perms {
@@ -422,9 +467,90 @@ func histEdit(r *rand.Rand, t *TableSpec, nKey int, next *int) *TableSpec {
 	return s
 }
 
+// histNameSeps: what a list of column names gets written with somewhere - the list separator of the
+// command line and of the configuration first, others, and nothing at all.
+var histNameSeps = []string{",", ", ", ";", "|", " ", "_", "-", ""}
+
+var histNameChars = []string{"a", "b", "c", "x", "y", "id", "no", "A", "1", "2", "_", " ", ".", ";", "|", "\"", ",", "-", "é"}
+
+// genHistNames: column names as files have them - words with spaces, dots, quotes, separators - all
+// different. With three key columns the third one is named after the first two, the way a combined
+// column is ("last,first" next to "last" and "first"): its name is their names joined by a
+// separator, so that the key made of that one column and the key made of the two columns read the
+// same once their names are written as a list.
+func genHistNames(r *rand.Rand, nCols, nKey int, sep string) []string {
+	for {
+		names := make([]string, nCols)
+		for i := range names {
+			n := string(rune('a'+r.Intn(26))) // starts with a letter (a value of `config add`, a CSV field)
+			for k := r.Intn(5); k > 0; k-- {
+				n += histNameChars[r.Intn(len(histNameChars))]
+			}
+			names[i] = strings.TrimRight(n, " ")
+		}
+		if nKey >= 3 {
+			names[2] = names[0] + sep + names[1]
+		}
+		seen := map[string]bool{}
+		for _, n := range names {
+			seen[n] = true
+		}
+		if len(seen) == nCols {
+			return names
+		}
+	}
+}
+
+// histSplitMerge: the key that reads like cur when the names are joined - a column named after two
+// others replaced by those two, or two neighbours replaced by the column named after them (keyCols[2]
+// is named after keyCols[0] and keyCols[1], see genHistNames). nil when cur has neither.
+func histSplitMerge(cur []string, keyCols []string) []string {
+	if len(keyCols) < 3 {
+		return nil
+	}
+	for i, c := range cur {
+		if c == keyCols[2] {
+			out := append([]string{}, cur[:i]...)
+			out = append(out, keyCols[0], keyCols[1])
+			out = append(out, cur[i+1:]...)
+			if len(out) == len(cur)+1 && !dupStr(out) {
+				return out
+			}
+			return nil
+		}
+	}
+	for i := 0; i+1 < len(cur); i++ {
+		if cur[i] == keyCols[0] && cur[i+1] == keyCols[1] {
+			out := append([]string{}, cur[:i]...)
+			out = append(out, keyCols[2])
+			out = append(out, cur[i+2:]...)
+			return out
+		}
+	}
+	return nil
+}
+
+func dupStr(l []string) bool {
+	seen := map[string]bool{}
+	for _, s := range l {
+		if seen[s] {
+			return true
+		}
+		seen[s] = true
+	}
+	return false
+}
+
 // histNewPK: another key built from the key columns. flavour 0: the same columns in another order,
-// 1: a proper sub-list, 2: one more column, 3: other columns, 4: no key.
+// 1: a proper sub-list, 2: one more column, 3: other columns, 4: no key; 5 (tables whose third key
+// column is named after the first two): the combined column for the two, or the two for the combined.
 func histNewPK(r *rand.Rand, cur []string, keyCols []string, flavour int) []string {
+	if flavour == 5 {
+		if out := histSplitMerge(cur, keyCols); out != nil {
+			return out
+		}
+		flavour = r.Intn(5)
+	}
 	has := func(l []string, s string) bool {
 		for _, x := range l {
 			if x == s {
@@ -494,10 +620,31 @@ func histNewPK(r *rand.Rand, cur []string, keyCols []string, flavour int) []stri
 // genHistory: h enumerates the kind of the first change (and the flavour of key change), so that a
 // run of a few dozen histories has every kind of change right after a cached temporary commit.
 func genHistory(r *rand.Rand, h int, thorough bool) (*histInput, []string) {
+	return genHistoryNamed(r, h, thorough, false)
+}
+
+// genHistoryNamed, named = true: the columns carry generated names (genHistNames) instead of a, b, c, ...,
+// three of them are key columns, the third named after the first two; the history starts keyed on the
+// combined column or on the two (by h), and its first change is the key that reads the same - in the
+// configuration or with -p, by h. Later key changes draw from all six flavours.
+func genHistoryNamed(r *rand.Rand, h int, thorough bool, named bool) (*histInput, []string) {
 	nCols := 2 + r.Intn(3)
 	nKey := 2 + r.Intn(2)
 	if nKey > nCols {
 		nKey = nCols
+	}
+	nFlavours := 5
+	var names []string
+	if named {
+		nKey, nFlavours = 3+r.Intn(2), 6
+		nCols = nKey + r.Intn(3)
+		// two histories in three: the separator lists are written with on the command line and in the
+		// configuration; the third: any of histNameSeps
+		sep := histNameSeps[0]
+		if h%3 == 2 {
+			sep = histNameSeps[r.Intn(len(histNameSeps))]
+		}
+		names = genHistNames(r, nCols, nKey, sep)
 	}
 	n := 2 + r.Intn(14)
 	if r.Intn(8) == 0 {
@@ -507,7 +654,7 @@ func genHistory(r *rand.Rand, h int, thorough bool) (*histInput, []string) {
 	// one history in three keeps a bare file name in branch.file and runs every command in the directory
 	// of the step's file: the same configured name then means another file in another working directory
 	in := &histInput{Relative: h%3 == 2}
-	t0 := genHistTable(r, nCols, nKey, n)
+	t0 := genHistTable(r, nCols, nKey, n, names)
 	in.Specs = append(in.Specs, t0)
 	keyCols := t0.Columns[:nKey]
 	// the initial key: two or three columns more often than one; sometimes none
@@ -532,6 +679,24 @@ func genHistory(r *rand.Rand, h int, thorough bool) (*histInput, []string) {
 			pk = append(pk, keyCols[i])
 		}
 	}
+	if named {
+		switch (h / 2) % 4 {
+		case 0:
+			pk = []string{keyCols[2]}
+		case 1:
+			pk = []string{keyCols[0], keyCols[1]}
+		case 2: // inside a longer key
+			pk = []string{keyCols[2], keyCols[nKey-1]}
+			if nKey == 3 {
+				pk = []string{keyCols[2]}
+			}
+		default:
+			pk = []string{keyCols[nKey-1], keyCols[0], keyCols[1]}
+			if nKey == 3 {
+				pk = []string{keyCols[0], keyCols[1]}
+			}
+		}
+	}
 	cur := histStep{File: "data0.csv", Content: 0, PK: pk, Via: "config", Older: r.Intn(5) != 0, Kind: "init"}
 	in.Steps = append(in.Steps, cur)
 	cfgPK := pk
@@ -539,6 +704,9 @@ func genHistory(r *rand.Rand, h int, thorough bool) (*histInput, []string) {
 	tags := []string{"cli", "history"}
 	if in.Relative {
 		tags = append(tags, "relative-file")
+	}
+	if named {
+		tags = append(tags, "column-names")
 	}
 	tag := func(s string) {
 		for _, t := range tags {
@@ -560,9 +728,12 @@ func genHistory(r *rand.Rand, h int, thorough bool) (*histInput, []string) {
 	}
 	for j := 0; j < nSteps; j++ {
 		kind := r.Intn(5)
-		flavour := r.Intn(5)
+		flavour := r.Intn(nFlavours)
 		if j == 0 {
 			kind, flavour = h%5, (h/5)%5
+			if named {
+				kind, flavour = 3+h%2, 5
+			}
 		}
 		st := cur
 		st.Via, st.PK, st.All, st.OffsetMs = "config", cfgPK, false, 0
@@ -611,6 +782,9 @@ func genHistory(r *rand.Rand, h int, thorough bool) (*histInput, []string) {
 				}
 			}
 		case 3: // the configured key changes
+			if sm := histSplitMerge(cfgPK, keyCols); named && flavour == 5 && sm != nil {
+				tag("key-reads-the-same")
+			}
 			cfgPK = histNewPK(r, cfgPK, keyCols, flavour)
 			st.PK = cfgPK
 			st.Kind = "set-pk"
@@ -620,6 +794,9 @@ func genHistory(r *rand.Rand, h int, thorough bool) (*histInput, []string) {
 				st.Kind = "set-pk-by-commit"
 			}
 		case 4: // another key for this command only
+			if sm := histSplitMerge(cur.PK, keyCols); named && flavour == 5 && sm != nil {
+				tag("key-reads-the-same")
+			}
 			st.PK = histNewPK(r, cur.PK, keyCols, flavour)
 			if len(st.PK) == 0 {
 				st.PK = histNewPK(r, cur.PK, keyCols, 3)
